@@ -343,9 +343,9 @@ def rowsOf (rs : List Rule) : List (String × String × Nat × Nat) :=
 open ASV.Rulesets in
 /-- the shipped rule files parsed with default multipliers -/
 def parsedShipped (cfg : Cfg) (level : String) : Except Err (List Rule) :=
-  match shippedUpTo level Generated.ShippedRules.files with
-  | .ok files => createRules { cfg with cutoffMul := (1, 1), nbhMul := (1, 1) } files [] []
-  | .error _ => .error .value
+  match ruleFilesFor Generated.ShippedRules.files level with
+  | some files => createRules { cfg with cutoffMul := (1, 1), nbhMul := (1, 1) } files [] []
+  | none => .error .value
 
 open ASV.Rulesets in
 def handleRulesets (j : Json) : R Json := do
@@ -422,11 +422,43 @@ def handleFromFiles (j : Json) : R Json := do
   | .error e, _ => return jObj [("model", jObj [("err", Json.str e.name)]), ("spec", jObj [("ok", Json.null)])]
   | _, .error e => return jObj [("model", jObj [("err", Json.str e.name)]), ("spec", jObj [("ok", Json.null)])]
 
+/-! ### strictness levels: `_get_rule_files_for_strictness`, `_get_rules` -/
+
+open ASV.Rulesets in
+/-- impl: per level the file names and the rule names; model: `ruleFilesFor` over the level table
+    (file of level `l` = `l.txt`), rule names of the regenerated shipped texts; spec: the file lists
+    are what the model says and each level's rules start with the rules of the level before -/
+def handleLevels (j : Json) : R Json := do
+  let cfg ← cfgOfJson j
+  let levels := Generated.ShippedRules.files.map (·.1)
+  let table := levels.map fun l => (l, l ++ ".txt")
+  let asked ← listOf asStr (← fld j "ask")
+  let modelFiles := asked.map fun l => match ruleFilesFor table l with
+    | some fs => jStrs fs
+    | none => Json.null
+  let modelNames := asked.map fun l => match parsedShipped cfg l with
+    | .ok rules => jStrs (rules.map (·.name))
+    | .error _ => Json.null
+  let implNames ← listOf (fun x => match x with
+    | Json.null => pure none
+    | v => do pure (some (← listOf asStr v)) : Json → R (Option (List String))) (← fld j "impl_names")
+  -- consecutive known levels, in table order
+  let known := (asked.zip implNames).filterMap fun (l, n) => match n with
+    | some names => if levels.contains l then some (l, names) else none
+    | none => none
+  let ordered := levels.filterMap fun l => known.lookup l
+  let rec chain : List (List String) → Bool
+    | a :: b :: rest => a.isPrefixOf b && chain (b :: rest)
+    | _ => true
+  return jObj [("model", jObj [("files", jArr modelFiles), ("names", jArr modelNames)]),
+               ("spec", jObj [("prefix_chain", toJson (chain ordered))])]
+
 def handle (j : Json) : R Json := do
   match (← strF j "kind") with
   | "tokens" => handleTokens j
   | "layout" => handleLayout j
   | "continuations" => handleContinuations j
+  | "levels" => handleLevels j
   | "parse" => handleParse j
   | "rulesets" => handleRulesets j
   | "from_files" => handleFromFiles j
